@@ -499,7 +499,7 @@ def run_check(prop, tier, master, workers, runs_override=None, write=True):
     mod = load_prop(prop)
     nruns = runs_override if runs_override is not None else mod.RUNS[tier]
     block = mod.BLOCK.get(tier, 100) if isinstance(mod.BLOCK, dict) else mod.BLOCK
-    watchdog = getattr(mod, "WATCHDOG_S", 600)
+    watchdog = getattr(mod, "WATCHDOG_S", 2400)
     cap = getattr(mod, "WALL_CAP_S", {"quick": 900, "thorough": 4 * 3600})[tier]
     known = load_known(prop)
 
